@@ -184,6 +184,7 @@ class WordEval:
 
 def check(ctx):
     repo = ctx.repo
+    ctx.rule("R01.7", "arrays handed to the Runner are fresh: no TDGLSolver/MeshOperators method returns a view of an attribute-held buffer", 12)
     ctx.rule("R01.1", "continuity: D(Js+Jn) - B mu_b == 0 as operator words, using mu = L^-1 rhs and L = D G", 2)
     ctx.rule("R01.2", "mu_laplacian == divergence @ mu_gradient with no fixed rows and no link variable", 1)
     ctx.rule("R01.3", "boundary-flux columns integrate to the boundary edge length; row zeroing unreachable from the solver", 2)
@@ -244,6 +245,8 @@ def check(ctx):
     terminal_density(ctx)
     j_scale(ctx)
     balance_test(ctx)
+    from ..effects import fresh_outputs
+    fresh_outputs(ctx, "R01.7", 'an update() abandoned part-way (Ctrl-C during the Poisson solve or a screening iteration) has already overwritten the supercurrent the Runner still holds from the previous step: the frame then written pairs the new supercurrent with the old normal current' + " and D(Js+Jn) != injected current in that frame")
     ctx.assume("SuperLU/pardiso solve L mu = rhs (singular pure-Neumann system) to rounding: declined; the identity is exact-arithmetic")
     ctx.decline("numerical size of the per-cell residual; interpolated cross-section currents")
 
